@@ -60,6 +60,15 @@ def programs():
             static=[['xmlns', 'http://www.w3.org/1999/xhtml'], ['data-x', '1']], close_indent=0)
     out.append(('default-namespace-mixed-forms', xh, [['v', 'int', 0]], ['default', 'renamed-root'],
                 {'data_option': True, 'must_contain': ['xmlns="http://www.w3.org/1999/xhtml"', 'id="k"', 'id="k2"', 'data-x="1"']}))
+    # attributes that share one (namespace, name): written twice, or lang next to xml:lang -- the statements
+    # after them are still statements and nothing else is lost
+    out.append(('repeated-attribute-names', el('div', el('p', 'x', static=[['class', 'a'], ['class', 'b'], ['id', 'k']],
+                                                         content=['text', py('v')], attributes=[['title', py('v')]]),
+                                               el('q', 'y', static=[['xml:lang', 'en'], ['lang', 'en'], ['dir', 'ltr']],
+                                                  omit=py('False'), keep_omit=True, define=[['local', 'w', py('v')]]),
+                                               static=[['data-x', '1']], close_indent=0), [['v', 'int', 0]],
+                ['default', 'renamed-root', 'renamed-each'],
+                {'must_contain': ['class="a"', 'class="b"', 'id="k"', 'xml:lang="en"', ' lang="en"', 'dir="ltr"', 'data-x="1"']}))
     # the option alone must leave ordinary data-* attributes (and prefixed statements) alone
     add('data-option-with-prefixed-statements', root(el('p', 'x', static=[['data-a-b', 'q'], ['class', 'c']],
                                                         content=['text', py('v')], attributes=[['id', py('v')]])),
@@ -113,7 +122,7 @@ def plan(tier, seed):
                    'chameleon.parser:ElementParser.visit_start_tag', 'chameleon.parser:ElementParser.visit_empty_tag',
                    'chameleon.tal:prepare_attributes', 'chameleon.zpt.program:convert_data_attributes',
                    'chameleon.zpt.program:validate_attributes', 'chameleon.zpt.program:MacroProgram.visit_element'],
-        bounds=('%d templates (11 hand-written: TAL statements, on-error, i18n, METAL, meta:interpolation; the rest taken from the C01 grammar and C09\'s generated METAL pairs) each written in 2-4 spellings: '
+        bounds=('%d templates (12 hand-written, one with attributes that share one namespace and name: TAL statements, on-error, i18n, METAL, meta:interpolation; the rest taken from the C01 grammar and C09\'s generated METAL pairs) each written in 2-4 spellings: '
                 'default prefixes, renamed prefixes declared on the root or on each element, data-<prefix>-<name> '
                 'attributes (option on), namespace-element form; foreign attributes mixed in (data-x, data-x-y, '
                 'data-<declared foreign prefix>-name, a declared foreign namespace, data-tal; one template with restricted_namespace=False and undeclared foreign prefixes). All spellings must render '
